@@ -294,10 +294,15 @@ func ParseSpendPolicy(s string) (SpendPolicy, error) {
 	var err error // sticky
 	nextToken := func() string {
 		s = strings.TrimSpace(s)
-		i := strings.IndexAny(s, "(),[]")
+		start := 0
+		if q, qerr := strconv.QuotedPrefix(s); qerr == nil {
+			start = len(q) // a quoted specifier may contain delimiters
+		}
+		i := strings.IndexAny(s[start:], "(),[]")
 		if err != nil || i == -1 {
 			return ""
 		}
+		i += start
 		t := s[:i]
 		s = s[i:]
 		return strings.TrimSpace(t)
